@@ -40,12 +40,23 @@ def table_T2(env):
     return env.memo("T2", build)
 
 
-def leaf_applies(leaf, env):
-    """a leaf is vacuous if no protocol that lists the opcode is compatible with its version"""
+def applicable_protocols(leaf, env):
+    """protocols P with op in T2[P], compatible with the leaf's version and with the loop invariant
+    `proto_emitted == (P >= 2)` (established by emit_proto before the loop: rule R05.c; no emission
+    leaf writes the flag: checked in C05)"""
     ps = protocols_of(env, leaf.op)
-    if leaf.version is None:
-        return bool(ps)
-    return int(leaf.version[1:]) in ps
+    if leaf.version is not None:
+        ps = [p for p in ps if p == int(leaf.version[1:])]
+    pe = leaf.proto_emitted_pre
+    if pe is True:
+        ps = [p for p in ps if p >= 2]
+    elif pe is False:
+        ps = [p for p in ps if p < 2]
+    return ps
+
+
+def leaf_applies(leaf, env):
+    return bool(applicable_protocols(leaf, env))
 
 
 def sample(leaf, probs):
